@@ -67,6 +67,12 @@ func (t *Tagger) createTag(repo *git.Repository, version string) error {
 	}
 	majorVersion := strings.Split(version, ".")[0]
 	for _, v := range []string{version, majorVersion} {
+		if _, err := repo.Tag(v); err == nil {
+			if err := t.moveTag(repo, v, hash.Hash()); err != nil {
+				return errors.New(err)
+			}
+			continue
+		}
 		if err := repo.DeleteTag(v); err != nil {
 			logger.Warn().Err(err).Str("tag", v).Msg("failed to delete tag, might be okay.")
 		}
@@ -85,6 +91,34 @@ func (t *Tagger) createTag(repo *git.Repository, version string) error {
 
 	logger.Info().Str("tag", version).Msg("tag successfully created")
 	return nil
+}
+
+// moveTag points the existing tag at hash by writing a loose reference, which
+// takes precedence over an entry in packed-refs (what `git tag -f` does).
+// Deleting the tag first is not an option: go-git drops the tag's line from
+// packed-refs but keeps the peeled line that followed it, which attaches that
+// line to the preceding entry or makes the file unreadable for git.
+func (t *Tagger) moveTag(repo *git.Repository, name string, hash plumbing.Hash) error {
+	tag := &object.Tag{
+		Name: name,
+		Tagger: object.Signature{
+			Name:  "Landon Clipp",
+			Email: "11232769+LandonTClipp@users.noreply.github.com",
+			When:  time.Now(),
+		},
+		Message:    name + "\n",
+		TargetType: plumbing.CommitObject,
+		Target:     hash,
+	}
+	obj := repo.Storer.NewEncodedObject()
+	if err := tag.Encode(obj); err != nil {
+		return err
+	}
+	tagHash, err := repo.Storer.SetEncodedObject(obj)
+	if err != nil {
+		return err
+	}
+	return repo.Storer.SetReference(plumbing.NewHashReference(plumbing.NewTagReferenceName(name), tagHash))
 }
 
 func (t *Tagger) largestTagSemver(repo *git.Repository, major uint64) (*semver.Version, error) {
